@@ -145,10 +145,19 @@ type shape struct {
 	shared  bool
 	red     bool
 	rewards bool
+	ubdV2   bool // (with two delegations) also an unbonding entry on V2, created in the same block as the first one on V1
+	redRed  bool // a second redelegation entry (same validators, one block later)
 }
 
 func (s shape) String() string {
-	return fmt.Sprintf("usdt=%v/dels=%d/ubd=%d/shared=%v/red=%v/rewards=%v", s.usdt, s.dels, s.ubd, s.shared, s.red, s.rewards)
+	x := ""
+	if s.ubdV2 {
+		x += "/ubdV2-same-block"
+	}
+	if s.redRed {
+		x += "/two-redelegation-entries"
+	}
+	return fmt.Sprintf("usdt=%v/dels=%d/ubd=%d/shared=%v/red=%v/rewards=%v%s", s.usdt, s.dels, s.ubd, s.shared, s.red, s.rewards, x)
 }
 
 func (e *env) deliverOK(ctx sdk.Context, msg sdk.Msg) {
@@ -194,12 +203,19 @@ func (e *env) buildPortfolio(ctx sdk.Context, s shape, src legacy, other legacy)
 		if s.shared && i == 0 {
 			e.deliverOK(ctx, stakingtypes.NewMsgUndelegate(other.Bech(), v1.String(), world.FXCoin(10)))
 		}
+		if s.ubdV2 && i == 0 {
+			e.deliverOK(ctx, stakingtypes.NewMsgUndelegate(src.Bech(), v2.String(), world.FXCoin(10))) // same completion time as the V1 entry
+		}
 		if i+1 < s.ubd {
 			ctx = e.block(ctx, 5*time.Second) // second entry gets a different completion time
 		}
 	}
 	if s.red {
 		e.deliverOK(ctx, stakingtypes.NewMsgBeginRedelegate(src.Bech(), v1.String(), v2.String(), world.FXCoin(20)))
+		if s.redRed {
+			ctx = e.block(ctx, 5*time.Second)
+			e.deliverOK(ctx, stakingtypes.NewMsgBeginRedelegate(src.Bech(), v1.String(), v2.String(), world.FXCoin(5)))
+		}
 	}
 	if s.rewards {
 		ctx = e.block(ctx, 5*time.Second)
@@ -337,7 +353,13 @@ func run(thorough bool) func(shard, shards int, deadline time.Time) *explore.Res
 								if ubd == 0 && shared {
 									continue
 								}
-								shapes = append(shapes, shape{usdt, dels, ubd, shared, red, rew})
+								shapes = append(shapes, shape{usdt: usdt, dels: dels, ubd: ubd, shared: shared, red: red, rewards: rew})
+								if dels == 2 && ubd > 0 && !usdt {
+									shapes = append(shapes, shape{dels: dels, ubd: ubd, shared: shared, red: red, rewards: rew, ubdV2: true})
+								}
+								if red && !usdt && !rew {
+									shapes = append(shapes, shape{dels: dels, ubd: ubd, shared: shared, red: red, redRed: true})
+								}
 							}
 						}
 					}
